@@ -1,7 +1,7 @@
 (* C17 — hashing is Keccak-256 with the original (pre-SHA-3) padding; hash-to-scalar reduces modulo l.
    Statements only (pinned by Check), `exact` proofs and assumption audits.  Keccak-f[1600] of Model/Keccak.v is the
    reference itself (validated by the known-answer Examples below and by the correspondence check). *)
-From MRS Require Import Proofs.KeccakProofs Proofs.KeccakBounds Proofs.KeccakFRefine.
+From MRS Require Import Proofs.KeccakProofs Proofs.KeccakBounds Proofs.KeccakFRefine Proofs.SpongeProofs.
 From Coq Require Import String.
 Open Scope N_scope.
 
@@ -49,6 +49,12 @@ Theorem C17_block_lanes : forall blk, List.length blk = 136%nat ->
   forall extra, lanes_of_bytes (17 + extra) blk = lanes_of_bytes 17 blk.
 Proof. exact lanes_of_block. Qed.
 
+(* THE property, end to end on bit strings (bytes read least-significant bit first):
+     keccak256 = SPONGE[Keccak-p[1600, 24], pad10*1, r = 1088](M, d = 256)   (FIPS 202 Algorithm 8, Spec/Sponge.v)
+   with NO suffix appended to M — i.e. original Keccak-256, not SHA3-256 *)
+Theorem C17_keccak256_is_sponge : forall m, bits_of_bytes (keccak256 m) = keccak256_bits (bits_of_bytes m).
+Proof. exact keccak256_is_sponge. Qed.
+
 (* the permutation: the 25-lane Keccak-f[1600] of the model IS the bit-level Keccak-p[1600, 24] of FIPS 202 §3.2-3.4
    (Spec/KeccakF.v: theta, rho with offsets from the (x,y) walk, pi, chi, iota with round constants from the LFSR rc(t)),
    under the state-array convention A[x, y, z] = bit z of lane x + 5y; 64-bit lanes stay 64-bit *)
@@ -95,6 +101,11 @@ Proof. vm_compute. reflexivity. Qed.
 Example C17_not_sha3_256_empty :
   Some (keccak256 []) <> parse_hex "a7ffc6f8bf1ed76651c14756a061d662f580ff4de43b49fa82d80a4b80f8434a".
 Proof. vm_compute. discriminate. Qed.
+(* hence the bit-level specification itself yields the published digest of the empty message *)
+Example C17_spec_kat_empty :
+  Some (keccak256_bits []) =
+  option_map bits_of_bytes (parse_hex "c5d2460186f7233c927e7db2dcc703c0e500b653ca82273b7bfad8045d85a470").
+Proof. change (@nil bit) with (bits_of_bytes []). rewrite <- C17_keccak256_is_sponge. vm_compute. reflexivity. Qed.
 (* the specification's derived tables are the published ones (FIPS 202 Table 2; RC[0], RC[1], RC[23]) *)
 Example C17_spec_rho_offsets :
   map (fun xy => rho_off (fst xy) (snd xy)) [(0,0); (1,0); (2,0); (3,0); (4,0); (0,1); (1,1); (2,1); (3,1); (4,1)]%nat
@@ -134,6 +145,7 @@ Check C17_absorb_all_blocks : forall m,
 Check C17_block_lanes : forall blk, List.length blk = 136%nat ->
   List.length (lanes_of_bytes 17 blk) = 17%nat /\
   forall extra, lanes_of_bytes (17 + extra) blk = lanes_of_bytes 17 blk.
+Check C17_keccak256_is_sponge : forall m, bits_of_bytes (keccak256 m) = keccak256_bits (bits_of_bytes m).
 Check C17_keccak_f_is_fips202 : forall (a : list N),
   List.length a = 25%nat -> Forall (fun v => v < 2 ^ 64) a ->
   List.length (keccak_f a) = 25%nat /\ Forall (fun v => v < 2 ^ 64) (keccak_f a) /\
@@ -158,6 +170,7 @@ Print Assumptions C17_padded_bits_blocks.
 Print Assumptions C17_padding_is_not_sha3.
 Print Assumptions C17_absorb_all_blocks.
 Print Assumptions C17_block_lanes.
+Print Assumptions C17_keccak256_is_sponge.
 Print Assumptions C17_keccak_f_is_fips202.
 Print Assumptions C17_state_lanes_64bit.
 Print Assumptions C17_scalar.
